@@ -156,6 +156,9 @@ fn run<C: CI>(ctx: &mut Ctx) {
 
     ctx.group(&format!("{name}/valid-lengths"), |ctx| {
         let mut lens = boundary_lengths(a.bits, 4);
+        if !ctx.lite {
+            lens.extend(long_lengths(a.bits));
+        }
         let extra = ctx.n(1500, 40000, 4);
         let maxlen = if ctx.lite { per_word(a.bits) * 5 / 4 + 2 } else { 5 * per_word(a.bits) };
         for _ in 0..extra {
@@ -278,6 +281,23 @@ fn run<C: CI>(ctx: &mut Ctx) {
             ext.extend(syms[..cut].iter().copied());
             Extend::extend(&mut ext, syms[cut..].iter().copied());
             check!(ctx, ext.to_string() == text && ext == reference, format!("extend|{name}|content"), "extend of {:?} gives {:?}", text, ext.to_string());
+            // the same symbols through iterators with unusual size hints
+            if r % 4 == 0 || ctx.lite {
+                iterator_shapes(&syms, |shape, it| {
+                    let got = observe(|| it.collect::<Seq<C>>());
+                    check!(ctx, got.as_ref().map(|g| g.to_string() == text && g.len() == n).unwrap_or(false), format!("FromIterator|{name}|{shape}"), "collect of {:?} ({n} symbols) from an iterator with size hint shape {shape}: {:?}", &text[..text.len().min(40)], got.map(|g| g.to_string()));
+                });
+                iterator_shapes(&syms, |shape, it| {
+                    let mut e = mk::<C>(&codes[..n.min(3)]);
+                    let got = observe(|| { e.extend(it); e });
+                    let want = format!("{}{}", a.text(&codes[..n.min(3)]), text);
+                    check!(ctx, got.as_ref().map(|g| g.to_string() == want).unwrap_or(false), format!("extend|{name}|{shape}"), "extend with size hint shape {shape}: {:?} want {:?}", got.map(|g| g.to_string()), &want[..want.len().min(50)]);
+                });
+                let ok_iter = syms.iter().map(|s| Ok::<C, ParseBioError>(*s));
+                let got: Result<Seq<C>, ParseBioError> = ok_iter.collect();
+                check!(ctx, got.as_ref().map(|g| g.to_string() == text).unwrap_or(false), format!("FromIterator|{name}|through-Result"), "collect through Result differs");
+                cell!(ctx, "{name}/from-symbols/iterator-shapes");
+            }
             let mut pushed = Seq::<C>::with_capacity(n / 2);
             for s in &syms {
                 pushed.push(*s);
@@ -293,7 +313,7 @@ fn run<C: CI>(ctx: &mut Ctx) {
 fn main() {
     run_main("C01", |ctx| {
         for_each_codec!(run, ctx);
-        ctx.note("rule", json!("per codec: every 1-byte string; every 2-byte string with one symbol character; valid strings at all word-boundary length classes plus random lengths (<= 5 words); the same with 1-3 injected offending bytes (lower-case twins, near-miss letters, control bytes, >= 0x80) at first/last/word-boundary/random positions; strings with 2-4-byte UTF-8 characters; symbol-iterator constructors. Each string goes through every parsing entry point that can take it. A case is distinct by (codec, input bytes); all are non-trivial (each is a parse judged against the alphabet model)."));
+        ctx.note("rule", json!("per codec: every 1-byte string; every 2-byte string with one symbol character; valid strings at all word-boundary length classes plus random lengths (<= 5 words); the same with 1-3 injected offending bytes (lower-case twins, near-miss letters, control bytes, >= 0x80) at first/last/word-boundary/random positions; strings with 2-4-byte UTF-8 characters; symbol-iterator constructors (collect / From<&Vec> / extend / push, also through iterators whose size_hint is exact, unknown, below the true count, or as large as usize::MAX). Each string goes through every parsing entry point that can take it. A case is distinct by (codec, input bytes); all are non-trivial (each is a parse judged against the alphabet model)."));
         ctx.note("assumptions", json!(["for the 1-bit codec the 'same symbols' of the statement are the canonical symbols S/W: text ACGT parses to S/W and displays as S/W"]));
     });
 }
